@@ -380,7 +380,7 @@ def ztables(packs):
 
 
 def coq_ztable(rows):
-    return "[" + "; ".join('Z3 %d "%s" %d' % r for r in rows) + "]"
+    return "[" + "; ".join('Z3 %d "%s" %d' % tuple(r) for r in rows) + "]"
 
 
 # ------------------------------------------------------------------ git repositories and packs for the generators
